@@ -7,6 +7,7 @@ import io
 import json
 import logging
 import os
+import zlib
 import sys
 import types
 import warnings
@@ -1292,6 +1293,8 @@ def g_input_files(rng, plain: bool) -> List[Tuple[str, List[str]]]:
             v = rng.choice(PLAIN_DIRS if nm == "--find-links" else PLAIN_URLS)
             if rng.random() < 0.2:
                 q = rng.choice(['"', "'"])
+                if nm == "--find-links" and zlib.crc32(v.encode("utf-8")) % 2 == 0:
+                    v = v + " dir"            # a quoted value may contain a space: it is ONE value for both front-ends
                 v = q + v + q
             ln = (nm + "=" + v) if rng.random() < 0.4 else (nm + rng.choice([" ", "  ", "\t"]) + v)
             if rng.random() < 0.2:
